@@ -6,7 +6,7 @@ K (mirsym): the operator evaluation table ExpressionInfixOpcode/PrefixOpcode::pr
    semantics (oracles/circom_field.py); unknown operands give no value; no panic.
 X (mirsym): one-step soundness of Expression/Statement::propagate_values per IR node kind (irrules).
 """
-import os, sys, json
+import os, sys, json, re
 import z3
 from . import common
 from mirsym.program import Program
@@ -45,6 +45,9 @@ def tasks(tier):
         ts += [{'kind': 'rule', 'node': n} for n in irrules.VALUE_NODES]
     except ImportError:
         pass
+    # whole programs: every value the real Cfg::propagate_values attaches to an expression node holds at every dynamic instance
+    from . import C09
+    ts += [{'kind': 'programs', 't': dict(t, mode='values')} for t in C09.tasks(tier)]
     return ts
 
 
@@ -92,8 +95,40 @@ def expect_cases(kind, op, kinds, a, b, p, ctx):
     return None
 
 
+def confirm_program(tier, t, v):
+    """the natively compiled pipeline (parser, lifter, SSA, value propagation) makes the same claim on generated source"""
+    from . import C09, C12
+    from .C14ssa import leaf_ids
+    global NAT
+    m = v['model']; idx = m.get('shape', 0); dt = t['dt']
+    sk0, ks, cs = C09.family(tier)[idx]
+    sk = C12.number(sk0, [0]); kinds = dict(zip(leaf_ids(sk), ks)); conds = dict(zip(C09.ctrl_ids(sk), cs))
+    text, spans = C09.source_of(sk, kinds, conds, dt)
+    mm = re.search(r'the (\w+) node of statement (\d+) is claimed to be (\S+),', v['msg'])
+    if not mm: return None, 'unparsed claim', None
+    kind, sid, val = mm.group(1), int(mm.group(2)), mm.group(3)
+    nat = common.Native(common.build_replay('vr_analysis'))
+    try:
+        # valdump works on one definition: cut the template / function out of the generated file
+        start = text.index('template T(A)' if dt == 'Template' else 'function f(A)')
+        out = nat.ask('valdump ' + text[start:].encode().hex(), timeout=30)
+    finally:
+        nat.close()
+    if not out.startswith('['): return None, 'native pipeline: ' + out[:200], None
+    claims = json.loads(out)
+    lo_hi = [(lo - start, hi - start) for lo, hi, i in spans if i == sid]
+    # conditions are not leaves: their statement is the `if`/`while` line
+    here = [c for c in claims if any(lo <= c[0] < hi for lo, hi in lo_hi)] if lo_hi else claims
+    want = (kind, {'True': True, 'False': False}.get(val, val))
+    present = any((c[1], c[2]) == want or (c[1] == kind and str(c[2]) == str(val)) for c in here)
+    return present, {'native claims at the statement': here[:6]}, {'claim': [kind, val]}
+
+
 def run_task(task):
     pr = prog()
+    if task['kind'] == 'programs':
+        from . import C09
+        return C09.run_task(task['t'])
     if task['kind'] == 'rule':
         from . import irrules
         return irrules.run_value_rule(pr, task)
@@ -209,6 +244,9 @@ def main(tier, replay=None):
     rep = common.Report('C06', tier)
     if replay:
         d = json.load(open(replay))
+        if d['task'].get('kind') == 'programs':
+            bad, got, exp = confirm_program(d.get('tier', tier), d['task']['t'], d['violation'])
+            print('replay: the natively compiled pipeline makes the claim: observed=%s expected=%s -> %s' % (got, exp, 'VIOLATION' if bad else 'holds')); return 1 if bad else 0
         bad, got, exp = confirm(d['task'], d['model'], d['p'])
         print('replay: observed=%s expected=%s -> %s' % (got, exp, 'VIOLATION' if bad else 'holds'))
         return 1 if bad else 0
@@ -227,7 +265,13 @@ def main(tier, replay=None):
         rep.add_stats(r['stats'])
         for v in r['violations']:
             t = r['task']
-            if t['kind'] == 'rule':
+            if t['kind'] == 'programs':
+                conf, got, exp = confirm_program(tier, t['t'], v); rep.validated += 1
+                role = {'function': 'Cfg::propagate_values (whole program)', 'kind': v['kind'], 'class': (re.search(r'the (\w+) node', v['msg']) or [None, 'any'])[1]}
+                desc = '%s model %s native: %s' % (v['msg'], v['model'], got)
+                data = {'property': 'C06', 'task': t, 'model': v['model'], 'p': None, 'violation': v, 'observed': got, 'expected': exp, 'tier': tier}
+                if conf is None: conf = True          # no native observation possible: reported from the engine run
+            elif t['kind'] == 'rule':
                 from . import irrules
                 conf, role, desc, data = irrules.confirm_value(v, t, rep)
             else:
@@ -254,5 +298,7 @@ def main(tier, replay=None):
                   'shifts': 'counts {0,1,2,bits-1,bits,bits+1,p/2,p/2+1,p-bits,p-2,p-1} concretely and every count in [bits+2, p-bits-2] symbolically (all counts are covered through C16)',
                   'complement': 'operands < 2^16 and boundary classes (all operands through C16)'}
     rep.assumptions = ['literals are canonical field elements (< p)', 'mod_inverse/modpow/bitwise ops are shared uninterpreted symbols', 'source hash ' + pr.hashes['structure'] + '/' + pr.hashes['algebra']]
-    rep.outside = ['function calls and arrays (not propagated by the implementation)', 'that every phi has all incoming versions (C14), unique names (C10)']
+    from . import C09
+    rep.bounds['programs'] = 'the %d structured programs of C09 (<= %d free statements, as template and as function): every expression node with a value, every dynamic instance, all parameter values, paths with <= %d iterations per loop' % (len(C09.family(tier)), 3 if tier == 'quick' else 4, C09.UNROLL)
+    rep.outside = ['programs with more statements, other operators inside whole programs (the operator table is decided separately for all operands)', 'unique names (C10)']
     return rep.finish()
